@@ -10,6 +10,7 @@ conserved shadow energy for Gaussian targets) are also evaluated directly on the
 import json
 import math
 import random
+import sys
 import time
 from fractions import Fraction
 
@@ -17,6 +18,8 @@ from harness import common as C
 from harness import impl
 
 PID = "C16"
+# exact dyadic mantissas after 30 steps have more than 4300 decimal digits (python's default parsing limit)
+sys.set_int_max_str_digits(0)
 HEADER = ("From Coq Require Import QArith ZArith List. Import ListNotations.\n"
           "From TT Require Import Num M_leapfrog M_lf_oracle.\n")
 
